@@ -130,6 +130,46 @@ fn program(ctx: &Ctx, case: u64, r: &mut Rng, rep: &mut Report) {
         let op = r.below(10);
         rep.evaluations += 1;
         let detail = || json!({"backend": format!("{kind:?}"), "step": step, "trace": trace.borrow().iter().rev().take(12).rev().cloned().collect::<Vec<_>>()});
+        // a write that fails half-way (the temporary file cannot be created or filled): it must report an error and
+        // leave the published state of that (type, id) exactly as it was
+        if kind == Kind::Local && r.chance(1, 10) {
+            let hex = id.to_hex().to_string();
+            let base = match t {
+                FileType::Config => dir.clone(),
+                FileType::Pack => dir.join("data").join(&hex[..2]),
+                _ => dir.join(type_dir(t)),
+            };
+            let _ = std::fs::create_dir_all(&base);
+            let tmp = base.join(if t == FileType::Config { "config-tmp-".to_string() } else { format!("{hex}-tmp-") });
+            let _ = std::fs::remove_file(&tmp);
+            let obstacle = if r.chance(1, 2) { "directory" } else { "symlink-to-/dev/full" };
+            let planted = if obstacle == "directory" { std::fs::create_dir(&tmp).is_ok() } else { std::os::unix::fs::symlink("/dev/full", &tmp).is_ok() };
+            if planted {
+                let n = 1 + r.usize_below(5000);
+                let data = Bytes::from(r.bytes(n));
+                let mut list = rustic_core::BytesList::default();
+                list.add(data);
+                trace.borrow_mut().push(format!("failing write ({obstacle} at the temporary path) {} {}", ft_name(t), &hex[..8]));
+                rep.count("writes_made_to_fail", 1);
+                match catch(|| be.write_bytes(t, &id, false, list)) {
+                    Err(p) => rep.violation(case, format!("panic:{}", panic_sig(&p)), format!("{kind:?} failing write panicked: {p}"), detail()),
+                    Ok(Ok(())) => rep.violation(case, "failed-write-reported-ok/Local".to_string(), format!("write_bytes returned Ok although the temporary file could not be written ({obstacle})"), detail()),
+                    Ok(Err(_)) => {}
+                }
+                let _ = std::fs::remove_dir(&tmp);
+                let _ = std::fs::remove_file(&tmp);
+                // the published state is what it was
+                match (model.get(&key), catch(|| be.read_full(t, &id))) {
+                    (_, Err(p)) => rep.violation(case, format!("panic:{}", panic_sig(&p)), format!("read_full panicked: {p}"), detail()),
+                    (Some(m), Ok(Ok(b))) if *m == b => {}
+                    (None, Ok(Err(_))) => {}
+                    (Some(_), Ok(other)) => rep.violation(case, "failed-write-damaged-published-file/Local".to_string(), format!("after a failed write of an id that was already stored, read_full gives {:?}", other.map(|b| b.len()).map_err(|e| errstr(&e))), detail()),
+                    (None, Ok(Ok(b))) => rep.violation(case, "failed-write-published/Local".to_string(), format!("a failed write made {} bytes visible under the id", b.len()), detail()),
+                }
+                rep.class(format!("failing-write/{obstacle}/{}", if model.contains_key(&key) { "existing" } else { "absent" }));
+                continue;
+            }
+        }
         match op {
             0..=2 => {
                 let len = match r.below(12) {
